@@ -197,6 +197,60 @@ PROPS = {
         "assumptions": ["fitness values distinct and positive, so the fittest organism of a species is unique"],
         "expect_classes": {"epochs": ["species with quota > 5", "quota exactly 6", "champion with disabled genes", "champion with recurrent genes", "quota set by delta coding", "babies stolen configured"]},
     },
+    "C08": {
+        "run": "^TestC08",
+        "shards": 12,
+        "timeout_quick": 1200,
+        "technique": "property-based testing (rapid): generated lineages arriving in generated orders and batches into a population, thresholds placed between observed pairwise distances; the assignment rule is replayed with the reference distance (decision-robust oracle); constructor and epoch paths checked through the public API",
+        "level_text": "Generated-input search: (a) direct speciation of 2-40 arrivals drawn from a constructed lineage of 3-12 (20) genomes in 1..n batches, threshold at a midpoint of the sorted pairwise distances so that most decisions are far from the boundary, both compatibility methods; "
+                      "(b) NewPopulation / NewPopulationRandom / ReadPopulation replayed in population order; (c) after every turnover of generated histories every organism is the founder of its species or within the threshold of the representative it was compared with.",
+        "level_note": "trusted: the reference distance M4 and the replay of the rule; decisions within 1e-9 relative of the threshold or of a second-best candidate are accepted either way and counted; in (c) the representative of a surviving species is the old generation's fittest member (fitness values are distinct there)",
+        "rule": "direct: non-trivial arrival = at least two robustly compatible species of which the first is not the closest (separates 'closest' from 'first compatible'); epochs: non-trivial turnover = more than one species afterwards; distinct by (arrival index, #species, #compatible, chosen, first compatible) / (epoch, #species, size)",
+        "assumptions": ["representative of a species = its first organism at the time of the comparison", "threshold > 0"],
+        "expect_classes": {"direct": ["arrival with several compatible species", "first compatible species is not the closest", "arrival founding a species while others exist", "several batches", "method:fast", "method:linear"],
+                           "epochs": ["member of a surviving species", "member of a new species", "founder of a species founded in this turnover", "constructor:random", "constructor:read"]},
+    },
+    "C09": {
+        "run": "^TestC09",
+        "shards": 12,
+        "timeout_quick": 1200,
+        "technique": "stateful property-based testing (rapid): population states reached by generated epoch histories, then one stepwise terminal turnover through tag-guarded phase hooks (adjust+apportion / full preparation+reproduction / plain NextEpoch) judged by an arithmetic model of expected offspring, quota bounds, conservation and parent selection",
+        "level_text": "Generated histories end in one of three terminal steps: A - fitness adjustment and apportionment called separately (shared fitness factor, expected offspring = adjusted / population mean, quota within one of the members' sum plus at most one make-up offspring, zero-quota species removed, elimination flags = everything outside the top floor(s*n)+1); "
+                      "B - the executor's own preparation phase (quotas still total the population size after stealing / delta coding, no negative quota, species lists are the top set, every species produces exactly its quota); C - plain NextEpoch (totals and expected-offspring relation on the old generation's objects).",
+        "level_note": "trusted: the arithmetic model (bounds, not a re-implementation of the carry loop); the per-species adjustment factor is only required to be a product of the documented penalty 0.01 and the age significance, divided by the species size - the ages at which they apply are not asserted",
+        "rule": "G-epochs scenarios (fitness programs with positive values, DropOffAge 1-8, babies stolen 0..PopSize/2, population 4-40), 0-19 ordinary epochs, then the terminal step; non-trivial = at least two species with different sizes or ages; distinct by (step, generation, #species, #sizes, #ages, size, stolen)",
+        "assumptions": ["at least one positive fitness value (cases without are skipped and counted)", "sequential executor phases"],
+        "expect_classes": {"stepwise": ["terminal step A", "terminal step B", "terminal step C", "several species", "stagnation penalty active", "youth boost active", "species purged for a zero quota", "species that loses members before reproduction", "survival threshold keeps the whole species", "species with a zero quota did not reproduce", "babies stolen configured"]},
+    },
+    "C16": {
+        "run": "^TestC16",
+        "race": True,
+        "shards": 12,
+        "gomaxprocs": [16, 1, 2, 4],
+        "replay_times": 5,
+        "timeout_quick": 1500,
+        "timeout_thorough": 5400,
+        "technique": "property-based testing (rapid) under the Go race detector: generated population histories with the parallel executor (1..PopSize species, high structural-mutation rates, several GOMAXPROCS values); any race report is a violation, and the C01/C02/C03/C10 invariants are checked after every parallel turnover",
+        "level_text": "Generated epoch histories run in a binary built with -race: the detector is happens-before based, so two conflicting unordered accesses are reported whether or not they overlapped in time in the observed run; "
+                      "the generator makes 'several species performing structural mutations in one turnover' the common case and the evidence counts such turnovers. Logical guarantees are checked on the interleavings that happened.",
+        "level_note": "trusted: the Go race detector (no false positives; races on paths that were not executed stay invisible); schedules are sampled, not enumerated - logical errors that need one particular interleaving are only found by chance; replays re-run a case 5 times",
+        "rule": "G-epochs scenarios with the parallel executor, population 3-30 (60), up to 12 (30) epochs, shards run with GOMAXPROCS 16/1/2/4; non-trivial turnover = at least two species (reproduction goroutines) and new innovation numbers issued; distinct by (epoch, #species, #species with innovations, max innovation, size)",
+        "assumptions": ["non-modular genomes (the wire format between the goroutines has no module syntax)", "identical numbers for identical innovations are not required under the parallel executor (C03 promises them for the sequential one)"],
+        "expect_classes": {"parallel": ["species:1", "species:2-5", "species:6+", "turnover with several reproduction goroutines and new innovations", "turnover founding new species"]},
+    },
+    "C17": {
+        "run": "^TestC17",
+        "shards": 12,
+        "cross_process": True,
+        "timeout_quick": 1200,
+        "technique": "property-based testing (rapid): generated scenarios (constructor, options, deterministic fitness program incl. a genome-dependent one, seed, epochs) run twice in one process with unrelated work in between, and in two differently configured processes; canonical dumps (floats as bit patterns) must be identical",
+        "level_text": "Generated-input search with a metamorphic oracle (same inputs => same outputs): every scenario is evolved twice with interference between the runs (another population under another seed, allocations, a garbage collection, map churn) and the complete canonical serialisation of the final population plus Population.Write text are compared; "
+                      "the driver additionally runs a shard in two processes (GOMAXPROCS 1 / 16, different environment size => different address-space layout) and compares the digests scenario by scenario.",
+        "level_note": "trusted: the canonical dump covers every exported field of organisms, genomes and species and the population counters; 'unrelated earlier work' is sampled by a fixed menu of interference, not enumerated",
+        "rule": "G-epochs scenarios with the sequential executor, 1-20 (30) epochs, structural rates biased upwards; non-trivial = at least 5 epochs and the genomes grew (structural mutation and crossover took place); distinct by (constructor, epochs, size, program, seed, dump length)",
+        "assumptions": ["the global math/rand source is seeded by the harness per run (go.mod go 1.23, so rand.Seed is effective; asserted at start-up)"],
+        "expect_classes": {"rerun": ["constructor:spawn", "constructor:random", "constructor:read", "fitness:genome", "genomes grew"]},
+    },
 }
 
 # properties that the technique can not decide (none): id -> reason
